@@ -364,6 +364,20 @@ pub fn cmd_text_fields(a: &HashMap<String, String>) -> i32 {
                                         let got = q.to_abs()["rec"][f.field].clone();
                                         let _ = writeln!(w, "{}", json!({"ev": "FieldDec", "kind": f.kind, "name": f.field, "field": field, "text": got}));
                                         n += 1;
+                                        // the same frame with another frame waiting behind it in the buffer (a field that fills
+                                        // its frame has no terminator: the text ends where the FRAME ends)
+                                        let mut two = frame.clone();
+                                        two.extend_from_slice(&[4, 3, 65, 3]);
+                                        if let (crate::frames::Verdict::Pkt { .. }, Some(q2)) = standalone("U", &two) {
+                                            let got2 = q2.to_abs()["rec"][f.field].clone();
+                                            if got2 != got {
+                                                let _ = writeln!(w, "{}", json!({"ev": "FieldDec", "kind": f.kind, "name": f.field, "field": field, "text": got2, "followed": true}));
+                                                n += 1;
+                                            }
+                                        } else {
+                                            let _ = writeln!(w, "{}", json!({"ev": "Panic", "fn": "decode-own-frame-followed", "in": [f.kind, f.field, k]}));
+                                            n += 1;
+                                        }
                                     },
                                     (v, _) => {
                                         let _ = writeln!(w, "{}", json!({"ev": "Panic", "fn": "decode-own-frame", "in": [f.kind, f.field, k], "why": format!("{:?}", v)}));
